@@ -28,6 +28,7 @@ import (
 	coreblock "github.com/sourcenetwork/defradb/internal/core/block"
 	"github.com/sourcenetwork/defradb/internal/datastore"
 	"github.com/sourcenetwork/defradb/internal/db"
+	"github.com/sourcenetwork/defradb/internal/encryption"
 	"github.com/sourcenetwork/defradb/internal/keys"
 	"github.com/sourcenetwork/defradb/net"
 	"github.com/sourcenetwork/defradb/node"
@@ -153,6 +154,25 @@ func (w *world) absorb(nodeIdx int, root cid.Cid, signer *Ident, tag string) {
 		if blk.Signature != nil {
 			walk(blk.Signature.Cid, label)
 		}
+		if blk.Encryption != nil {
+			ek := blk.Encryption.Cid.String()
+			if _, ok := w.pool.raw[ek]; !ok {
+				eb, err := datastore.EncstoreFrom(n.DB.Rootstore()).Get(n.Ctx, blk.Encryption.Cid)
+				if err != nil {
+					hx.Harnessf("author n%d lacks the key block %s its own commit links: %v", nodeIdx, ek, err)
+				}
+				enc, err := coreblock.GetEncryptionBlockFromBytes(eb.RawData())
+				if err != nil {
+					hx.Harnessf("key block %s does not decode: %v", ek, err)
+				}
+				scope := "whole-document"
+				if enc.FieldName != nil {
+					scope = "field-" + *enc.FieldName
+				}
+				w.pool.addEnc(blk.Encryption.Cid, append([]byte{}, eb.RawData()...), false, fmt.Sprintf("key-block[%s %s]", enc.DocID, scope))
+			}
+			w.inf.flag("encrypted:%s", blockClass(blk))
+		}
 		w.pool.add(c, raw, false, false, label)
 		w.signer[k] = signer
 		w.producer[k] = nodeIdx
@@ -177,7 +197,7 @@ func gqlInput(fields []FieldOp, extra string) string {
 }
 
 // mutate runs one mutation on one author node and records what it announced.
-func (w *world) mutate(tag string, oi, nodeIdx int, kind string, doc int, fields []FieldOp, req *Ident) ([]hx.Msg, *hx.Failure) {
+func (w *world) mutate(tag string, oi, nodeIdx int, kind string, doc int, fields []FieldOp, req *Ident, enc Op) ([]hx.Msg, *hx.Failure) {
 	n := w.cl.Nodes[nodeIdx]
 	ctx := n.Ctx
 	signer := w.c.Authors[nodeIdx].Ident
@@ -193,7 +213,16 @@ func (w *world) mutate(tag string, oi, nodeIdx int, kind string, doc int, fields
 	var q string
 	switch kind {
 	case "create":
-		q = fmt.Sprintf(`mutation { create_Users(input: %s) { _docID } }`, gqlInput(fields, fmt.Sprintf("k: %d", doc)))
+		args := ""
+		if enc.Encrypt {
+			args += ", encrypt: true"
+			w.inf.flag("doc:encrypted")
+		}
+		if len(enc.EncFields) > 0 {
+			args += ", encryptFields: [" + strings.Join(enc.EncFields, ", ") + "]"
+			w.inf.flag("doc:encrypted-fields")
+		}
+		q = fmt.Sprintf(`mutation { create_Users(input: %s%s) { _docID } }`, gqlInput(fields, fmt.Sprintf("k: %d", doc)), args)
 	case "update":
 		q = fmt.Sprintf(`mutation { update_Users(docID: %q, input: %s) { _docID } }`, docID, gqlInput(fields, ""))
 	case "delete":
@@ -222,7 +251,11 @@ func (w *world) mutate(tag string, oi, nodeIdx int, kind string, doc int, fields
 		sname = signer.String()
 	}
 	got := w.cl.Collect(nodeIdx)
-	w.logf("%s n%d %s doc%d %s signer=%s -> %d notifications", tag, nodeIdx, kind, doc, gqlInput(fields, ""), sname, len(got))
+	encNote := ""
+	if kind == "create" && (enc.Encrypt || len(enc.EncFields) > 0) {
+		encNote = fmt.Sprintf(" encrypt=%v encryptFields=%v", enc.Encrypt, enc.EncFields)
+	}
+	w.logf("%s n%d %s doc%d %s%s signer=%s -> %d notifications", tag, nodeIdx, kind, doc, gqlInput(fields, ""), encNote, sname, len(got))
 	for _, m := range got {
 		w.absorb(nodeIdx, m.CID(), signer, tag)
 		if !bytes.Equal(m.Block, w.pool.raw[m.Cid]) {
@@ -244,6 +277,12 @@ func (w *world) sync(msgs []hx.Msg, to int, doc int) bool {
 	for _, m := range msgs {
 		if m.DocID == "" {
 			continue
+		}
+		dag, _ := w.pool.closure(m.Cid)
+		for _, x := range dag {
+			if b := w.pool.block(x.cid); b.Encryption != nil {
+				w.putKey(w.cl.Nodes[to], b.Encryption.Cid.String())
+			}
 		}
 		if err := w.cl.Deliver(m, to); err != nil {
 			w.inf.flag("author-sync-error")
@@ -300,15 +339,15 @@ func (w *world) runOps() *hx.Failure {
 					}
 				}
 				if kind == "fork" {
-					if _, f := w.mutate(tag+"a", oi, nodeIdx, "update", doc, o.Fields, o.Req); f != nil {
+					if _, f := w.mutate(tag+"a", oi, nodeIdx, "update", doc, o.Fields, o.Req, Op{}); f != nil {
 						return f
 					}
-					got, f := w.mutate(tag+"b", oi, other, "update", doc, []FieldOp{{Field: "i", Val: fmt.Sprint(100 + oi)}}, nil)
+					got, f := w.mutate(tag+"b", oi, other, "update", doc, []FieldOp{{Field: "i", Val: fmt.Sprint(100 + oi)}}, nil, Op{})
 					if f != nil {
 						return f
 					}
 					if w.sync(got, nodeIdx, doc) {
-						if _, f := w.mutate(tag+"c", oi, nodeIdx, "update", doc, []FieldOp{{Field: "pn", Val: "1"}}, o.Req); f != nil {
+						if _, f := w.mutate(tag+"c", oi, nodeIdx, "update", doc, []FieldOp{{Field: "pn", Val: "1"}}, o.Req, Op{}); f != nil {
 							return f
 						}
 						w.inf.flag("fork-merged")
@@ -317,7 +356,7 @@ func (w *world) runOps() *hx.Failure {
 				}
 			}
 		}
-		got, f := w.mutate(tag, oi, nodeIdx, kind, doc, o.Fields, o.Req)
+		got, f := w.mutate(tag, oi, nodeIdx, kind, doc, o.Fields, o.Req, o)
 		if f != nil {
 			return f
 		}
@@ -362,7 +401,7 @@ func (w *world) checkAuthorBlocks() *hx.Failure {
 	idents := allIdents()
 	nSigned, nUnsignedByDesign := 0, 0
 	for _, k := range w.pool.byName() {
-		if w.pool.isSig[k] || w.pool.forged[k] {
+		if w.pool.isSig[k] || w.pool.isEnc[k] || w.pool.forged[k] {
 			continue
 		}
 		b := w.pool.block(k)
@@ -537,11 +576,12 @@ type receiver struct {
 	// quarantine: forged and second requests go through a handler bound to a private bus, so that a
 	// wrongly announced merge never reaches the database's asynchronous merger (a panic there would
 	// kill the process); the harness runs such a merge itself, synchronously and recoverably.
-	qbus   event.Bus
-	qtap   *recvTap
-	rvQ    *net.VerifReceiver
-	rv     *net.VerifReceiver
-	honest []msgRec
+	qbus    event.Bus
+	qtap    *recvTap
+	rvQ     *net.VerifReceiver
+	stopKMS func()
+	rv      *net.VerifReceiver
+	honest  []msgRec
 }
 
 func (w *world) newReceiver(name string) *receiver {
@@ -552,11 +592,12 @@ func (w *world) newReceiver(name string) *receiver {
 	}
 	qbus := event.NewChannelBus(100, 100)
 	return &receiver{name: name, n: n, tap: newRecvTap(n.DB.Events()), rv: net.NewVerifReceiver(n.Ctx, n.DB.Events(), n.DB),
-		qbus: qbus, qtap: newRecvTap(qbus), rvQ: net.NewVerifReceiver(n.Ctx, qbus, n.DB)}
+		qbus: qbus, qtap: newRecvTap(qbus), rvQ: net.NewVerifReceiver(n.Ctx, qbus, n.DB), stopKMS: answerKeyRequests(n)}
 }
 
 func (r *receiver) close() {
 	r.n.DB.Events().Unsubscribe(r.tap.sub)
+	r.stopKMS()
 	r.qbus.Close()
 	r.n.Close()
 }
@@ -608,12 +649,54 @@ func (w *world) store(r *receiver, root string, skipRoot bool) {
 			}
 			put(sk)
 		}
+		if b.Encryption != nil && !w.c.Push.KeyLess {
+			w.putKey(r.n, b.Encryption.Cid.String())
+		}
 		if k == root && skipRoot {
 			return
 		}
 		put(k)
 	}
 	walk(root)
+}
+
+// putKey places a key block the pool knows into a node's key store (what the key exchange would deliver
+// to a legitimate recipient). Links to key blocks nobody has (made up by the attacker) stay unresolved.
+func (w *world) putKey(n *hx.Node, k string) {
+	raw, ok := w.pool.raw[k]
+	if !ok || !w.pool.isEnc[k] {
+		return
+	}
+	nb, err := blocks.NewBlockWithCid(raw, mustCid(k))
+	if err != nil {
+		hx.Harnessf("block: %v", err)
+	}
+	if err := datastore.EncstoreFrom(n.DB.Rootstore()).Put(n.Ctx, nb); err != nil {
+		hx.Harnessf("put key block: %v", err)
+	}
+}
+
+// answerKeyRequests answers every key request of a node with "nothing" (a merge that misses a key block
+// would otherwise wait forever); the returned func stops it.
+func answerKeyRequests(n *hx.Node) func() {
+	sub, err := n.DB.Events().Subscribe(encryption.RequestKeysEventName)
+	if err != nil {
+		hx.Harnessf("subscribe to key requests: %v", err)
+	}
+	done := make(chan struct{})
+	go func() {
+		defer close(done)
+		for msg := range sub.Message() {
+			if ev, ok := msg.Data.(encryption.RequestKeysEvent); ok {
+				ev.Resp <- encryption.Result{}
+				close(ev.Resp)
+			}
+		}
+	}()
+	return func() {
+		n.DB.Events().Unsubscribe(sub)
+		<-done
+	}
 }
 
 func (r *receiver) hasBlock(k string) bool {
@@ -788,6 +871,16 @@ func (w *world) checkHonestState(r *receiver, where string) *hx.Failure {
 			exp[x.cid] = true
 		}
 	}
+	if w.c.Push.KeyLess {
+		for k := range exp {
+			if w.pool.block(k).Encryption != nil {
+				// a receiver without the key cannot apply encrypted commits: acceptance, announcement and
+				// completion were checked, the resulting state is not this property's matter
+				w.inf.flag("control:key-less-state-not-compared")
+				return nil
+			}
+		}
+	}
 	snap, f := takeSnapshot(r.n, "on "+r.name+" after honest push "+where)
 	if f != nil {
 		return f
@@ -888,6 +981,9 @@ func run(c Case, inf *info) *hx.Failure {
 	w := &world{c: c, inf: inf, pool: newPool(), signer: map[string]*Ident{}, producer: map[string]int{}, docIDs: map[int]string{}, deleted: map[int]bool{}, lastDocMsg: map[int]*hx.Msg{}}
 	w.cl = hx.NewCluster(len(c.Authors), sdl(c.Branchable), authorOpts(c))
 	defer w.cl.Close()
+	for _, n := range w.cl.Nodes {
+		defer answerKeyRequests(n)()
+	}
 	f := w.scenario()
 	if f == nil {
 		f = w.deferred
@@ -971,6 +1067,9 @@ func (w *world) scenario() *hx.Failure {
 	} else {
 		inf.flag("receiver:fresh")
 	}
+	if c.Push.KeyLess {
+		inf.flag("receiver:key-less")
+	}
 	w.logf("push msg%d (%s)", P.idx, describe(w.pool.block(P.Cid)))
 
 	// ---- honest control on a fresh receiver (when the forged receiver will not get the honest push anyway)
@@ -1037,6 +1136,12 @@ func (w *world) scenario() *hx.Failure {
 	if isSigKind(kind) {
 		kindClass = "sigblock"
 	}
+	if isEncKind(kind) {
+		kindClass = "enclink"
+	}
+	if tb.Encryption != nil {
+		inf.flag("target:encrypted-block")
+	}
 	inf.flag("tamper:%s", kind)
 	inf.flag("target:%s", blockClass(tb))
 	inf.flag("depth:%s", depthClass(T.depth))
@@ -1095,6 +1200,53 @@ func (w *world) scenario() *hx.Failure {
 	}
 	inf.nontrivial = true
 
+	// ---- verify-after-tamper on the author's node (it knows the document, so the answer is about the signature):
+	// the forged block must not verify under the original signer's key nor under the key its header names
+	verifyTampered := func() *hx.Failure {
+		s := w.signer[T.cid]
+		if s == nil {
+			return nil
+		}
+		A := w.cl.Nodes[w.producer[T.cid]]
+		bs := datastore.BlockstoreFrom(A.DB.Rootstore())
+		fb := w.pool.block(forgedT)
+		for _, k := range []string{fb.Signature.Cid.String(), forgedT} {
+			raw, ok := w.pool.raw[k]
+			if !ok {
+				hx.Harnessf("pool lacks %s", k)
+			}
+			nb, _ := blocks.NewBlockWithCid(raw, mustCid(k))
+			if err := bs.Put(A.Ctx, nb); err != nil {
+				hx.Harnessf("put: %v", err)
+			}
+		}
+		if ok, _ := w.pool.refVerifyWithKey(forgedT, *s); ok {
+			// only the header's type field was changed: the value still is the signer's signature over the content
+			inf.flag("forged-target-still-verifies-under-signer-key")
+		} else {
+			if err := A.DB.VerifySignature(A.Ctx, forgedT, seedKey(*s).GetPublic()); err == nil {
+				return hx.Failf("C12/verify-accepts-tampered/db/"+kindClass, "VerifySignature(forged %s, original signer's key) = nil after %s of %s (%s)\n%s", forgedT, kind, T.cid, describe(tb), w.history())
+			}
+			if _, err := coreblock.VerifyBlockSignatureWithKey(fb, linkSystemOf(A), seedKey(*s).GetPublic()); err == nil {
+				return hx.Failf("C12/verify-accepts-tampered/block-level/"+kindClass, "VerifyBlockSignatureWithKey(forged %s, original signer's key) = nil after %s of %s (%s)\n%s", forgedT, kind, T.cid, describe(tb), w.history())
+			}
+		}
+		if _, err := coreblock.VerifyBlockSignature(fb, linkSystemOf(A)); err == nil {
+			return hx.Failf("C12/verify-accepts-tampered/header-key/"+kindClass, "VerifyBlockSignature(forged %s) = nil after %s of %s (%s)\n%s", forgedT, kind, T.cid, describe(tb), w.history())
+		}
+		return nil
+	}
+	// half of the cases ask before the push, half after it (so that either clause can be the one reported)
+	verifyFirst := c.Push.Tamper.Arg%2 == 0
+	if verifyFirst {
+		inf.flag("verify-after-tamper:before-push")
+		if f := verifyTampered(); f != nil {
+			return f
+		}
+	} else {
+		inf.flag("verify-after-tamper:after-push")
+	}
+
 	// ---- the forged push
 	F := w.newReceiver("receiver")
 	defer F.close()
@@ -1151,23 +1303,9 @@ func (w *world) scenario() *hx.Failure {
 	if F.hasBlock(forgedP) {
 		inf.flag("rejected-block-retained-in-blockstore")
 	}
-	// DB.VerifySignature on the forged target under the original signer's key
-	{
-		bs := datastore.BlockstoreFrom(F.n.DB.Rootstore())
-		nb, _ := blocks.NewBlockWithCid(w.pool.raw[forgedT], mustCid(forgedT))
-		if err := bs.Put(F.n.Ctx, nb); err != nil {
-			hx.Harnessf("put: %v", err)
-		}
-		if s := w.signer[T.cid]; s != nil {
-			if ok, _ := w.pool.refVerifyWithKey(forgedT, *s); ok {
-				// only the header's type field was changed: the value still is the signer's signature over the content
-				inf.flag("forged-target-still-verifies-under-signer-key")
-			} else if err := F.n.DB.VerifySignature(F.n.Ctx, forgedT, seedKey(*s).GetPublic()); err == nil {
-				return hx.Failf("C12/verify-accepts-tampered/"+kindClass, "VerifySignature(forged %s, original signer's key) = nil after %s of %s (%s)\n%s", short(forgedT), kind, short(T.cid), describe(tb), w.history())
-			}
-			if _, err := coreblock.VerifyBlockSignature(w.pool.block(forgedT), linkSystemOf(F.n)); err == nil {
-				return hx.Failf("C12/verify-accepts-tampered/header-key/"+kindClass, "VerifyBlockSignature(forged %s) = nil after %s", short(forgedT), kind)
-			}
+	if !verifyFirst {
+		if f := verifyTampered(); f != nil {
+			return f
 		}
 	}
 
@@ -1195,7 +1333,7 @@ func (w *world) scenario() *hx.Failure {
 func (w *world) replay(F *receiver, P msgRec, forgedP, forgedT string, before snapshot, kind string, depth int) *hx.Failure {
 	forged := map[string]bool{}
 	for k, is := range w.pool.forged {
-		if is && !w.pool.isSig[k] {
+		if is && !w.pool.isSig[k] && !w.pool.isEnc[k] {
 			forged[k] = true
 		}
 	}
